@@ -31,11 +31,9 @@ Proof.
   rewrite E2, (ctrl_step_ind s1 k2 l A1 HA). eexists. eexists. split; [reflexivity|].
   split; [reflexivity|]. split; [reflexivity|].
   assert (I1 : Inv s1).
-  { pose proof (ctrl_step_Inv s k1 l HI) as H. rewrite A in H. rewrite andb_false_r in H.
-    specialize (H eq_refl). rewrite (ctrl_step_ind s k1 l A HA) in H. exact H. }
+  { pose proof (ctrl_step_Inv s k1 l HI) as H. rewrite (ctrl_step_ind s k1 l A HA) in H. exact H. }
   split; [exact I1|].
-  pose proof (ctrl_step_Inv s1 k2 l I1) as H. rewrite A1 in H. rewrite andb_false_r in H.
-  specialize (H eq_refl). rewrite (ctrl_step_ind s1 k2 l A1 HA) in H. exact H.
+  pose proof (ctrl_step_Inv s1 k2 l I1) as H. rewrite (ctrl_step_ind s1 k2 l A1 HA) in H. exact H.
 Qed.
 
 Lemma same_client_delivered s s' : Inv s -> Inv s' -> same_client (cl s) (cl s') ->
